@@ -106,7 +106,7 @@ theorem NP_aggUpdate (a : Aggregator) (v : Value) : NP (aggUpdate a v) := by
 
 /-- split a monadic definition until every leaf is a non-panic constructor or a call known not to panic -/
 macro "npm" : tactic => `(tactic| (repeat' (first
-  | rfl | exact NP_eval _ _ _ | exact NP_evalList _ _ _ | exact NP_validate _ _ | exact NP_aggUpdate _ _
+  | rfl | exact NP_eval _ _ _ | exact NP_evalList _ _ _ | exact NP_condHolds _ | exact NP_validate _ _ | exact NP_aggUpdate _ _
   | apply NP_bind | intro _ | split | (dsimp only))))
 
 theorem NP_cellStep (O : Oracles) (q : AggStmt) (env : Env) (k : AggKind) (c : Cell) : NP (cellStep O q env k c) := by
@@ -382,7 +382,7 @@ theorem NP_rowOf (O : Oracles) (q : AggStmt) (key : List Value) (subs : List (Na
 theorem NP_acceptGroup (O : Oracles) (q : AggStmt) (having : Expr) (key : List Value) (subs : List (Nat × Value)) :
     NP (acceptGroup O q having key subs) := by
   unfold acceptGroup
-  exact NP_bind (NP_eval _ _ _) (fun _ => rfl)
+  exact NP_bind (NP_eval _ _ _) (fun _ => NP_condHolds _)
 
 theorem items_enum (q : AggStmt) : ∀ p ∈ enumFrom 0 q.items, p.2 ∈ q.items := fun p hp => mem_enumFrom (i := p.1) (by cases p; exact hp)
 
